@@ -1,7 +1,12 @@
 # tier budgets (sourced by bin/check): runs and wall-clock budget of the exploration phase
 runs_quick=1500; budget_quick=40s
-runs_thorough=60000; budget_thorough=20m
+runs_thorough=80000; budget_thorough=20m
 case "$ID" in
  C05) runs_quick=3000 ;;
  C07|C08) runs_quick=1200; budget_quick=50s ;;
+ C13|C14) runs_quick=800; budget_quick=50s ;;
+ C15|C16) runs_quick=1500; budget_quick=45s ;;
+ C17|C19) runs_quick=2000 ;;
+ C18) runs_quick=320; budget_quick=60s; runs_thorough=12000 ;;
+ C20) runs_quick=64; runs_thorough=2000 ;;
 esac
